@@ -40,7 +40,7 @@ def api_spec(pid, key, clause=""):
     cls, meth, role = m.groups()
     if pid not in API_PIDS or meth.startswith("_") and not meth.startswith("__"):
         return None
-    meth = {"index3": "index"}.get(meth, meth)      # Sequence.index(value, start, stop): same method, longer argument tuples
+    meth = {"index3": "index", "index2": "index"}.get(meth, meth)      # Sequence.index(value, start, stop): same method, longer argument tuples
     spec = {"class": cls, "method": meth, "role": role.split("+")[0], "property": pid}
     if role.endswith("+synced-operand"):
         spec["operand"] = "synced"
